@@ -370,3 +370,10 @@ Definition write_header (sh : list N) : bytes :=
 
 Definition write_npy (sh : list N) (vals : list N) : bytes :=
   write_header sh ++ flat_map (le_bytes 8) vals.
+
+(* the header length written into the 2-byte field; Header::write (repaired) refuses, before writing anything, a header
+   whose length does not fit it (thousands of axes) *)
+Definition header_len (sh : list N) : N :=
+  let d := N.of_nat (length (fmt_dict sh)) in d + (align - (6 + 2 + 2 + d) mod align).
+Definition write_npy_checked (sh : list N) (vals : list N) : option bytes :=
+  if header_len sh <? 65536 then Some (write_npy sh vals) else None.
